@@ -658,3 +658,57 @@ def enum_flag_family():
                 for f3 in fl:
                     g = ([f1] if f1 else []) + L("a") + ([f2] if f2 else []) + mid + ([f3] if f3 else []) + L("k")
                     yield normalize(g)
+
+
+def enum_rule_family():
+    """Expressions around the documented rules (C06): a branch token (alternation / repetition,
+    nested up to two levels) whose terminals are or are not component boundaries, placed only /
+    first / middle / last in a concatenation next to neighbours that do or do not start / end with a
+    boundary. Most of these must be rejected by the rule checker; the ones that build are checked at
+    language level. The family is what makes a loosened rule visible: an expression that used to be
+    rejected now builds, and its language contains adjacent separators or is rooted only sometimes."""
+    L = lambda t: [("lit", t)]
+    S = ("sep",)
+    T_ = lambda l, t: ("tree", l, t)
+    # branch bodies by what their edges are
+    starts = [[], [S], [T_(False, True)], [T_(True, True)]]       # -, /, **/, /**/
+    ends = [[], [S], [T_(True, False)]]                           # -, /, /**
+    bodies = [st + L("a") + en for st in starts for en in ends]
+    bodies += [[("zom",)] + L("a"), L("a") + [("zom",)]]          # *a, a*
+    plain = L("b")
+
+    def branches():
+        for x in bodies:
+            yield ("alt", [x, plain])
+            yield ("alt", [plain, x])
+            yield ("alt", [plain, L("c"), x])
+            yield ("alt", [x])
+            for form in (None, (1, None), (0, 1), (2,), (1, 2), (1,)):
+                yield ("rep", x, form)
+        # nested: the offending body one level further down
+        for x in bodies[1:12]:
+            yield ("alt", [[("alt", [x, plain])] + L("c"), L("d")])          # {{x,b}c,d}
+            yield ("alt", [L("c") + [("alt", [x, plain])], L("d")])          # {c{x,b},d}
+            yield ("alt", [L("d"), [("alt", [plain, x])]])                   # {d,{b,x}}
+            yield ("rep", [("alt", [x, plain])], (1, None))                  # <{x,b}:1,>
+            yield ("alt", [[("rep", x, (1, 2))], plain])                     # {<x:1,2>,b}
+            yield ("rep", [("rep", x, (1, 2))] + L("c"), (0, 1))             # <<x:1,2>c:0,1>
+    EF = ("alt", [L("e"), L("f")])
+    lefts = [[], L("x"), L("x") + [S], [S], [T_(False, True)], L("x") + [T_(True, True)], [("zom",)],
+             L("x") + [("alt", [L("e"), L("f") + [S]])],
+             # unrelated context further away (the checker's neighbour context is shared state)
+             L("g") + [EF] + [("alt", [L("e"), L("f") + [S]])]]
+    rights = [[], L("y"), [S] + L("y"), [S], [T_(True, False)], [T_(True, True)] + L("y"), [("zom",)],
+              [("alt", [L("e"), [S] + L("f")])], L("y") + [EF],
+              [("alt", [L("e"), [S] + L("f")])] + [EF] + L("g"),
+              [("alt", [[S] + L("c"), L("d")])] + [EF]]
+    seen = set()
+    for b in branches():
+        for l in lefts:
+            for r in rights:
+                g = l + [b] + r
+                t = show(g)
+                if t in seen:
+                    continue
+                seen.add(t)
+                yield g
